@@ -29,6 +29,14 @@ def client_op(kind, variant, who):
         if kind == "remove":
             return {"op": "Delete", "coll": COLL, "key": KEY, "h": "h2" if who == "p2" else ""}
         return {"op": "Set", "coll": COLL, "key": KEY, "body": "J2", "h": "h2" if who == "p2" else ""}
+    if variant == "kvtouch" and kind in ("set", "get"):
+        # expiry changes (which keep the CAS but advance the revision) race with read-modify-write calls
+        if kind == "set":
+            return {"op": "Touch", "coll": COLL, "key": KEY, "exp": "E2", "h": "h2" if who == "p2" else ""}
+        return {"op": "GetAndTouchRaw", "coll": COLL, "key": KEY, "exp": "E1"}
+    if variant == "kvmeta" and kind == "set":
+        # a replicated write: caller-chosen CAS a minute ahead of the clock; the regular writes that follow must be newer
+        return {"op": "SetWithMeta", "coll": COLL, "key": KEY, "body": "J1", "json": True, "casc": "snap", "newc": "far"}
     if variant == "kvexp" and kind == "update":
         # the callback keeps the body and asks for a new expiry only
         return {"op": "Update", "coll": COLL, "key": KEY, "cb": "setexp"}
@@ -212,8 +220,10 @@ def run(tier, seed, vh, only_paths=None, mode=None):
                     variants = ["kv", "kvadd"]
                 if scen in ("join", "order"):
                     variants = variants + ["kv2"]
+                if scen in ("join", "resume") and "set" in sc["prog"].values():
+                    variants = variants + ["kvmeta"]
                 if scen in ("race", "race3"):
-                    variants = ["kv", "subdoc", "subabs", "subdel", "xattr", "xtomb", "kvopt", "kvadd", "kvexp"]
+                    variants = ["kv", "subdoc", "subabs", "subdel", "xattr", "xtomb", "kvopt", "kvadd", "kvexp", "kvtouch"]
                 for v in variants:
                     if v == "kvopt" and not set(sc["prog"].values()) & {"set", "incr"}:
                         continue
@@ -227,6 +237,8 @@ def run(tier, seed, vh, only_paths=None, mode=None):
                                               and set(sc["prog"].values()) & {"remove", "set"} and set(sc["prog"].values()) & {"update", "casw", "incr"}):
                         continue
                     if v == "kvexp" and "update" not in sc["prog"].values():
+                        continue
+                    if v == "kvtouch" and not (set(sc["prog"].values()) & {"set", "get"} and set(sc["prog"].values()) & {"update", "incr", "casw"}):
                         continue
                     if v in ("xattr", "xtomb") and not set(sc["prog"].values()) <= {"update", "casw", "set"}:
                         continue
